@@ -338,6 +338,64 @@ func runFault(it *FaultItem, ks *sut.KeySet, workRoot string) (res FaultResult) 
 		return inst, w, in, true
 	}
 
+	if it.Witness == "partialread-close" {
+		// a reader that consumed only part of a file and is then CLOSED must free the drive
+		inst, _, _, ok := fresh()
+		if !ok {
+			return
+		}
+		defer inst.Close()
+		big := make([]byte, 300000)
+		f, err := inst.FS.Create("/zz-big")
+		if err == nil {
+			_, err = f.Write(big)
+			if err == nil {
+				err = f.Close()
+			}
+		}
+		if err != nil {
+			res.Infra = "scenario setup: " + err.Error()
+			return
+		}
+		for round := 0; round < 3; round++ {
+			res.Injections++
+			var stepErr string
+			okc, pan := sut.Watchdog(20*time.Second, func() {
+				r, err := inst.FS.Open("/zz-big")
+				if err != nil {
+					stepErr = "open: " + err.Error()
+					return
+				}
+				buf := make([]byte, 10+round*1000)
+				if _, err := r.Read(buf); err != nil {
+					stepErr = "read: " + err.Error()
+				}
+				if round == 1 {
+					_, _ = r.Seek(5, 0)
+					_, _ = r.Read(buf[:7])
+				}
+				if err := r.Close(); err != nil {
+					stepErr = "close: " + err.Error()
+				}
+			})
+			call := Call{Op: "PartialReadClose", P: []string{"zz-big"}, K: round}
+			if !okc || pan != nil {
+				add(call, "open + partial read + close did not return / panicked: %v", pan)
+				res.Hang = !okc
+				res.Dump = goroutineDump()
+				return
+			}
+			_ = stepErr
+			okp, panp := sut.Watchdog(20*time.Second, func() { _ = inst.FS.Mkdir(fmt.Sprintf("/zz-after-%d", round), 0o755) })
+			if !okp || panp != nil {
+				add(call, "after a partially read handle was closed, the next write call does not return (the stream goroutine still holds the drive): %v", panp)
+				res.Hang = !okp
+				res.Dump = goroutineDump()
+				return
+			}
+		}
+		return
+	}
 	if it.Witness == "partialread" {
 		// a reader that consumed only part of a multi-record file, then a write call
 		inst, w, _, ok := fresh()
